@@ -30,6 +30,13 @@ def place_stop(rng, o, clock, tz):
         occ = first + rng.randint(0, 3) * P
     else:
         return
+    first_reg = ref + o["timings"][0][1] if call == 0 else first
+    if not o.get("delay", True) and first_reg - ref > 1 and rng.random() < 0.5:
+        # delay=False: a window that contains `start` but not the first regular occurrence
+        inst = ref + rng.randint(1, first_reg - ref - 1)
+        off = gen.rand_off(rng)[0] if aware else None
+        o["stop"] = [inst + (off or 0), off]
+        return
     inst = occ + rng.choice([0, 0, -1, 1, 1, P // 2, -(P // 2), 10 * P, -10 * P])
     off = gen.rand_off(rng)[0] if aware else None
     o["stop"] = [inst + (off or 0), off]
@@ -37,7 +44,7 @@ def place_stop(rng, o, clock, tz):
 
 def scenarios(rng, n, tier):
     for _ in range(n):
-        opts = {"calls": [0, 0, 1, 2, 3, 4], "p_single": 0.7, "p_skip": 0.3, "p_nodelay": 0.1, "p_stop": 0.0,
+        opts = {"calls": [0, 0, 1, 2, 3, 4], "p_single": 0.7, "p_skip": 0.3, "p_nodelay": 0.2, "p_stop": 0.0,
                 "p_limit": 0.3, "max_jobs": 3, "p_force": 0.2, "p_start": 0.5, "max_polls": 8}
         scn = scen.gen_life(rng, opts)
         ctor = rng.random() < 0.3
